@@ -39,6 +39,7 @@ ops:
   `path`           → `filter_pairs_by_path(δ, tol=t, all)`
   `angle`          → `filter_pairs_by_angle(δ, tol=t, deg, all)` or `E_FILTER`
   `delta:<unit>`   → `id_pairs_from_delta(δ, unit, rel_tol=t, all)` or `E_FILTER`
+  `rpe:<unit>`     → `RPE(delta=δ, delta_unit, rel_delta_tol=t, all_pairs).process_data`: pairs, `E_METRICS` or `E_FILTER`
   `mpath`, `mangle`→ smallest decision margin of the corresponding `path` / `angle` call
 pairs are printed as `i:j …`, the empty list as `-`. -/
 def handle (op : String) (args : List String) : Option String :=
@@ -63,6 +64,12 @@ def handle (op : String) (args : List String) : Option String :=
       | ["delta", u] => do
           let u ← parseUnit? u
           some (showRes (idPairsFromDelta ⟨n, steps, cang, ang, pi⟩ δ u t all))
+      | ["rpe", u] => do
+          let u ← parseUnit? u
+          match rpePairs ⟨n, steps, cang, ang, pi⟩ δ u t all with
+          | .error .metrics => some "E_METRICS"
+          | .error .filter => some "E_FILTER"
+          | .ok ps => some (showPairs ps)
       | ["mpath"] =>
           some (showRat (if all then pathAllMargin (accDist steps) δ t
                          else reachMargin δ (0 :: steps) 0 big))
